@@ -22,6 +22,7 @@ import (
 	_ "crypto/sha512"
 	"encoding/hex"
 	"encoding/json"
+	"errors"
 	"flag"
 	"fmt"
 	"io"
@@ -97,8 +98,10 @@ type Scenario struct {
 	Via          string `json:"via"` // memory | oci
 	Tamper       bool   `json:"tamper"`
 	ReproPair    bool   `json:"reproPair"`
-	Foreign      uint64 `json:"foreign,omitempty"` // != 0: also push a re-ordered archive of the first directory (seed)
-	NonRoot      bool   `json:"nonRoot,omitempty"` // run by an unprivileged user (uid 65534): permission checks of the kernel apply
+	Foreign      uint64 `json:"foreign,omitempty"`     // != 0: also push a re-ordered archive of the first directory (seed)
+	ForeignPerm  int    `json:"foreignPerm,omitempty"` // > 0: ONLY push the archive of the first directory with its entries in the (n-1)-th permutation
+	DstSetgid    bool   `json:"dstSetgid,omitempty"`   // the second store's working directory is set-group-ID: every directory made in it inherits the bit
+	NonRoot      bool   `json:"nonRoot,omitempty"`     // run by an unprivileged user (uid 65534): permission checks of the kernel apply
 }
 
 func hx(s string) string   { return hex.EncodeToString([]byte(s)) }
@@ -144,7 +147,7 @@ func contentHash(seed uint64, n int) string {
 // ---------- generator ----------
 
 var namePool = []string{"a", "b", "c", "A", "a.b", "a-b", "a b", "a0", "ab", ".hidden", "x.txt", "data.bin", "zz", "z",
-	"README", "ünï", "日本語", "é", "sub", "lib", "0", "_", "a+b", "a,b", "a=b", "~", "a\\b", "a:b", "%41", "a'b", "a\"b", "*", "?", "#", "[x]", "{y}"}
+	"..a", "...", "..data", "..hidden", "..", "README", "ünï", "日本語", "é", "sub", "lib", "0", "_", "a+b", "a,b", "a=b", "~", "a\\b", "a:b", "%41", "a'b", "a\"b", "*", "?", "#", "[x]", "{y}"}
 
 func genName(r *common.Rand, used map[string]bool) string {
 	for {
@@ -161,6 +164,9 @@ func genName(r *common.Rand, used map[string]bool) string {
 			s = fmt.Sprintf("f%d", r.Intn(1000))
 		default:
 			s = common.Pick(r, namePool)
+		}
+		if s == ".." { // not a name; names that merely BEGIN with two dots are
+			s = common.Pick(r, []string{"..a", "...", "..data", "..b.c", "..ü"})
 		}
 		if !used[s] {
 			used[s] = true
@@ -306,7 +312,13 @@ func (g *genCtx) fillLinks(root *Node) {
 				t = "."
 			}
 		case k < 5:
-			t = common.Pick(r, []string{"missing", "no/such/file", "./x", "a//b", "a/./b", "x/"})
+			t = common.Pick(r, []string{"missing", "no/such/file", "./x", "a//b", "a/./b", "x/", "..x", "..a/b", "a/..b", "...", ".../x", "./..data"})
+		case k < 6 && r.Chance(1, 2): // long and non-ASCII targets (PAX linkpath records)
+			t = common.Pick(r, []string{"", "../", "./"}) + strings.Repeat(common.Pick(r, []string{"l", "ü", "日"}), 60+r.Intn(120)) + common.Pick(r, []string{"", "/x", "/..y"})
+			if strings.HasPrefix(t, "../") && depth == 0 {
+				t = t[3:]
+			}
+			run.Count("link-target>100")
 		case k < 6:
 			t = "."
 		case k < 7 && depth > 0:
@@ -348,7 +360,7 @@ func genTree(r *common.Rand, big, badLink bool) *Node {
 	return root
 }
 
-var itemNames = []string{"d", "dir", "out", "sub/dir", "a b", "ünï", "x.y", "deep/er/dir", "D", "data", "e", "f", "g/h", "日本"}
+var itemNames = []string{"..d", "...", "d", "dir", "out", "sub/dir", "a b", "ünï", "x.y", "deep/er/dir", "D", "data", "e", "f", "g/h", "日本"}
 
 var nonRootFlag = flag.Bool("nonroot", false, "this process is the unprivileged child: generate and run the non-root scenarios")
 
@@ -357,6 +369,11 @@ const nonRootUID = 65534
 func genScenario(r *common.Rand, idx int) *Scenario {
 	sc := &Scenario{Op: "S", NonRoot: *nonRootFlag}
 	sc.Umask = common.Pick(r, []int{0o022, 0o022, 0o077, 0o027, 0o002, 0o000, 0o007, 0o026})
+	if *nonRootFlag && r.Chance(1, 6) {
+		// the unprivileged user's own umask may take the owner's write/search permission away:
+		// the model's permission check must predict the EACCES
+		sc.Umask = common.Pick(r, []int{0o300, 0o200, 0o100, 0o322, 0o277})
+	}
 	if !*nonRootFlag && r.Chance(1, 8) {
 		// umasks with owner bits (only root can work under them)
 		sc.Umask = common.Pick(r, []int{0o300, 0o277, 0o123, 0o777, 0o500})
@@ -371,6 +388,13 @@ func genScenario(r *common.Rand, idx int) *Scenario {
 	sc.ReproPair = r.Chance(1, 2)
 	if r.Chance(1, 3) {
 		sc.Foreign = 1 + r.U64()%1000000
+	}
+	if sc.NonRoot && sc.Umask&0o300 != 0 {
+		sc.Via = "memory" // an OCI layout could not write into its own directories
+	}
+	if !sc.NonRoot && r.Chance(1, 10) {
+		// a shared project directory as destination (direct pushes elsewhere are left out)
+		sc.DstSetgid, sc.Tamper, sc.Foreign = true, false, 0
 	}
 	if idx < 240 {
 		// the first scenarios walk through every intermediate store x SkipUnpack x ForceCAS x IgnoreNoName
@@ -422,6 +446,10 @@ func genScenario(r *common.Rand, idx int) *Scenario {
 		it := Item{Name: hx(nm), Tree: t, ViaLink: r.Chance(1, 8)}
 		if r.Chance(1, 6) { // the content lives elsewhere than under its name
 			it.Path = hx(common.Pick(r, []string{"", "/"}) + fmt.Sprintf("_elsewhere/%d/x", i))
+		}
+		if sc.NonRoot && sc.Umask&0o300 != 0 {
+			// the directories above the base would be created unusable by pushDir itself (not in the model)
+			it.Name = hx(strings.ReplaceAll(filepath.ToSlash(filepath.Clean(nm)), "/", "_"))
 		}
 		sc.Items = append(sc.Items, it)
 	}
@@ -757,9 +785,7 @@ func linkClass(root *Node, name string) string {
 			if linkAt[strings.Join(stack[:i], "\x00")] {
 				class = "through"
 			}
-			if i < len(stack)-1 && fileAt[strings.Join(stack[:i], "\x00")] {
-				class = "through"
-			}
+			_ = fileAt // a target may pass through a regular file: nothing exists there, the link is dangling
 		}
 	})
 	return class
@@ -819,6 +845,15 @@ func (s *recStore) Push(ctx context.Context, d ocispec.Descriptor, r io.Reader) 
 	return err
 }
 
+// mkdirPlain creates a harness directory (and its parents) 0755 whatever the scenario's umask is.
+func mkdirPlain(dir string) {
+	old := syscall.Umask(0o022)
+	defer syscall.Umask(old)
+	if err := os.MkdirAll(dir, 0o755); err != nil {
+		panic(err)
+	}
+}
+
 // oracleFail records a violation (and, in the unprivileged child, a structured copy for the parent).
 func oracleFail(id, sig, msg string, sc *Scenario) {
 	run.OracleFail(id, sig, msg, sc)
@@ -826,6 +861,27 @@ func oracleFail(id, sig, msg string, sc *Scenario) {
 		js, _ := json.Marshal(sc)
 		rec, _ := json.Marshal(oracleRec{ID: id, Sig: sig, Msg: msg, Replay: js})
 		oracleSide.Write(append(rec, '\n'))
+	}
+}
+
+// runScenario runs one scenario under a watchdog: a restore that wedges (a lock, a pipe, a
+// copy worker that never returns) becomes an oracle failure with the scenario as replay, and the
+// run ends at once instead of hanging.
+func runScenario(sc *Scenario) {
+	done := make(chan struct{})
+	go func() {
+		defer close(done)
+		runScenarioInner(sc)
+	}()
+	select {
+	case <-done:
+	case <-time.After(90 * time.Second):
+		oracleFail(run.NewID(), "wedged", "the scenario did not finish within 90 s (Add / Copy / Push blocked)", sc)
+		if oracleSide != nil {
+			oracleSide.Sync()
+		}
+		run.Finish()
+		os.Exit(0)
 	}
 }
 
@@ -926,7 +982,40 @@ func fetchAll(ctx context.Context, s interface {
 
 var scenarioNo int
 
-func runScenario(sc *Scenario) {
+// runForeignOnly pushes one re-ordered archive of the scenario's first directory and nothing else.
+func runForeignOnly(sc *Scenario) {
+	scenarioNo++
+	work := filepath.Join(run.Dir, "w", fmt.Sprint(scenarioNo))
+	mkdirPlain(work)
+	defer os.RemoveAll(work)
+	scJSON, _ := json.Marshal(sc)
+	old := syscall.Umask(sc.Umask)
+	defer syscall.Umask(old)
+	foreignCase(context.Background(), sc, " #"+hex.EncodeToString(scJSON), work, sc.Items[0])
+}
+
+// nthPermutation reorders es into its k-th permutation (factorial number system).
+func nthPermutation(es []fent, k int) []fent {
+	pool := append([]fent{}, es...)
+	var out []fent
+	for n := len(pool); n > 0; n-- {
+		f := 1
+		for i := 2; i < n; i++ {
+			f *= i
+		}
+		i := (k / f) % n
+		k %= f
+		out = append(out, pool[i])
+		pool = append(pool[:i], pool[i+1:]...)
+	}
+	return out
+}
+
+func runScenarioInner(sc *Scenario) {
+	if sc.ForeignPerm > 0 {
+		runForeignOnly(sc)
+		return
+	}
 	scenarioNo++
 	ctx := context.Background()
 	work := filepath.Join(run.Dir, "w", fmt.Sprint(scenarioNo))
@@ -942,8 +1031,8 @@ func runScenario(sc *Scenario) {
 	fail := func(id, sig, msg string) { oracleFail(id, sig, msg, sc) }
 	scid := run.NewID()
 
-	old := syscall.Umask(sc.Umask)
-	defer syscall.Umask(old)
+	// the scenario's umask governs the restoring side only (second file store, direct pushes);
+	// the source trees are materialised and added under the process's own umask
 	umask := uint32(sc.Umask)
 
 	for _, it := range sc.Items {
@@ -1040,6 +1129,20 @@ func runScenario(sc *Scenario) {
 			}
 			if n.Kind == "f" && n.HardOf != "" {
 				run.Count("hard-link")
+				if strings.HasPrefix(n.name(), "..") {
+					run.Count("dotdot-name: hard link")
+				}
+			}
+			if strings.HasPrefix(n.name(), "..") {
+				run.Count("dotdot-name: " + n.Kind)
+			}
+			if n.Kind == "l" {
+				for _, c := range strings.Split(n.target(), "/") {
+					if strings.HasPrefix(c, "..") && c != ".." {
+						run.Count("dotdot-target")
+						break
+					}
+				}
 			}
 			if n.Kind == "f" {
 				switch {
@@ -1147,6 +1250,12 @@ func runScenario(sc *Scenario) {
 	}
 
 	// ---- unpack verification clause
+	old := syscall.Umask(sc.Umask)
+	defer syscall.Umask(old)
+	ownerBits := sc.NonRoot && sc.Umask&0o300 != 0
+	if ownerBits {
+		run.Count("nonroot umask with owner write/search bits")
+	}
 	if sc.Foreign != 0 {
 		for _, it := range sc.Items {
 			if it.Tree.Kind == "d" {
@@ -1199,6 +1308,12 @@ func runScenario(sc *Scenario) {
 		fail(scid, "copy-out-failed", err.Error())
 		return
 	}
+	if sc.DstSetgid {
+		run.Count("destination working directory setgid")
+		if err := os.Chmod(dst, 0o755|os.ModeSetgid); err != nil {
+			panic(err)
+		}
+	}
 	s2f, err := file.New(dst)
 	if err != nil {
 		panic(err)
@@ -1238,9 +1353,19 @@ func runScenario(sc *Scenario) {
 		case worst == "through" && strings.Contains(msg, "no symbolic link allowed"):
 			fail(scid, "link-through-link-rejected", "a tree whose relative links all stay inside was refused because one target passes through another link that had been extracted before it: "+msg)
 			return
-		case worst == "through" && (strings.Contains(msg, "not a directory") || strings.Contains(msg, "too many levels")):
-			fail(scid, "link-through-file-rejected", "a tree whose relative links all stay inside was refused because one (dangling) target passes through a regular file or through itself: "+msg)
+		case worst == "through" && strings.Contains(msg, "too many levels"):
+			// the other link is the link itself (l -> l/a: ELOOP from the Lstat walk): same mechanism
+			fail(scid, "link-through-link-rejected", "a tree whose relative links all stay inside was refused because one target passes through a link that points through itself: "+msg)
 			return
+		case strings.Contains(msg, "not a directory") && strings.Contains(msg, "lstat"):
+			fail(scid, "link-through-file-rejected", "a (dangling) link target that passes through a regular file was refused: "+msg)
+			return
+		case strings.Contains(msg, "file name too long") && strings.Contains(msg, "lstat"):
+			fail(scid, "link-target-name-too-long", "a (dangling) link target with a component longer than NAME_MAX was refused: "+msg)
+			return
+		case ownerBits && strings.Contains(msg, "permission denied"):
+			// the umask takes the owner's own write/search permission from every new directory
+			run.Count("not-judged: umask removes the owner's permissions")
 		case sc.NonRoot && strings.Contains(msg, "permission denied"):
 			fail(scid, "nonroot-permission-denied", "restore by an unprivileged user failed: "+msg)
 			return
@@ -1380,7 +1505,12 @@ func runScenario(sc *Scenario) {
 		}
 		// pushed under this name?  (a deduplicated directory is restored from the first one's gzip)
 		id := run.NewID()
-		input := fmt.Sprintf("X %d %d %s %s%s", sc.Umask, b2i(sc.Preserve), nameComps(name), tree(it.Tree, false), tail)
+		// X = extraction as root, XU = by an unprivileged owner (the model adds the permission check)
+		kindSuffix := map[bool]string{false: "", true: "U"}[sc.NonRoot]
+		if sc.DstSetgid {
+			kindSuffix = "G" // the base directory starts set-group-ID
+		}
+		input := fmt.Sprintf("X%s %d %d %s %s%s", kindSuffix, sc.Umask, b2i(sc.Preserve), nameComps(name), tree(it.Tree, false), tail)
 		if cerr != nil {
 			// which item failed is not known with several directories; compare only single-directory scenarios
 			ndirs := 0
@@ -1389,7 +1519,8 @@ func runScenario(sc *Scenario) {
 					ndirs++
 				}
 			}
-			if ndirs == 1 {
+			// (under an owner-bit umask of the unprivileged run a plain-file item may be the one that failed)
+			if ndirs == 1 && (!ownerBits || len(sc.Items) == 1) {
 				run.Case(id, input, fmt.Sprintf("B%d ", b2i(isBenign))+strings.SplitN(errClass(cerr), ":", 2)[0])
 				run.Nontrivial(input)
 			}
@@ -1413,6 +1544,16 @@ func runScenario(sc *Scenario) {
 		}
 		// whatever the links look like: once the restore succeeded the tree must be the source tree
 		want := expectTree(it.Tree, umask, sc.Preserve)
+		if sc.DstSetgid && !sc.Preserve {
+			// mkdir(2) in a set-group-ID directory: every directory made there is set-group-ID too
+			// (the kernel's doing; PreservePermissions sets the recorded mode exactly)
+			for k, w := range want {
+				if w.kind == "d" {
+					w.mode |= 0o2000
+					want[k] = w
+				}
+			}
+		}
 		compareTrees(id, name, sc, want, got, fail)
 	}
 }
@@ -1486,7 +1627,7 @@ func tamperCases(ctx context.Context, sc *Scenario, scid, tail, work string, i i
 			continue
 		}
 		dir := filepath.Join(work, "tamper", fmt.Sprint(k))
-		os.MkdirAll(dir, 0o755)
+		mkdirPlain(dir)
 		st, _ := file.New(dir)
 		st.PreservePermissions = sc.Preserve
 		nd := d
@@ -1521,8 +1662,16 @@ func tamperCases(ctx context.Context, sc *Scenario, scid, tail, work string, i i
 		if err != nil {
 			res = "ERR"
 		}
+		// what Push left in the directory, whether it succeeded or not
+		residue := "RES -"
+		if left, serr := snapshot(filepath.Join(dir, name)); serr == nil {
+			residue = "RES " + listing(left)
+		}
 		id := run.NewID()
-		run.Case(id, fmt.Sprintf("U %d %d %s %d %d %s %s%s", sc.Umask, b2i(sc.Preserve), v.ckModel, b2i(v.digestOK), b2i(v.sizeOK), nameComps(name), tree(it.Tree, false), tail), res)
+		run.Case(id, fmt.Sprintf("U%s %d %d %s %d %d %s %s%s", map[bool]string{false: "", true: "U"}[sc.NonRoot], sc.Umask, b2i(sc.Preserve), v.ckModel, b2i(v.digestOK), b2i(v.sizeOK), nameComps(name), tree(it.Tree, false), tail), res+" "+residue)
+		if err != nil {
+			run.Count("residue-after-failed-push")
+		}
 		run.Count("unpack-" + v.tag + "=" + res)
 		run.Nontrivial("U " + v.tag + string(d.Digest))
 		bn := benign(it.Tree, name)
@@ -1531,6 +1680,8 @@ func tamperCases(ctx context.Context, sc *Scenario, scid, tail, work string, i i
 			oracleFail(id, "checksum-unverified", fmt.Sprintf("Push(%q) accepted a blob whose uncompressed digest differs from the annotation", name), sc)
 		case (v.tag == "wrong-digest" || v.tag == "wrong-size") && err == nil:
 			oracleFail(id, "blob-unverified", fmt.Sprintf("Push(%q) accepted a blob not matching the descriptor (%s)", name, v.tag), sc)
+		case v.tag == "good" && err != nil && sc.NonRoot && sc.Umask&0o300 != 0 && strings.Contains(err.Error(), "permission denied"):
+			run.Count("not-judged: umask removes the owner's permissions")
 		case v.tag == "good" && err != nil && bn:
 			oracleFail(id, "unpack-failed", fmt.Sprintf("Push(%q) of the untouched blob failed: %v", name, err), sc)
 		}
@@ -1576,6 +1727,10 @@ func foreignCase(ctx context.Context, sc *Scenario, tail, work string, it Item) 
 	var es []fent
 	walkEntries(it.Tree, name, &es)
 	variant := r.Intn(7)
+	if sc.ForeignPerm > 0 {
+		variant = 7
+		es = nthPermutation(es, sc.ForeignPerm-1)
+	}
 	switch variant {
 	case 1: // no root entry
 		es = es[1:]
@@ -1635,7 +1790,7 @@ func foreignCase(ctx context.Context, sc *Scenario, tail, work string, it Item) 
 		Annotations: map[string]string{ocispec.AnnotationTitle: unhx(it.Name), file.AnnotationUnpack: "true",
 			file.AnnotationDigest: string(digest.FromBytes(tarb.Bytes()))}}
 	dir := filepath.Join(work, "foreign")
-	os.MkdirAll(dir, 0o755)
+	mkdirPlain(dir)
 	defer os.RemoveAll(dir)
 	st, err := file.New(dir)
 	if err != nil {
@@ -1645,9 +1800,14 @@ func foreignCase(ctx context.Context, sc *Scenario, tail, work string, it Item) 
 	perr := st.Push(ctx, desc, bytes.NewReader(blob))
 	st.Close()
 	id := run.NewID()
-	input := fmt.Sprintf("E %d %d %s %d %s%s", sc.Umask, b2i(sc.Preserve), nameComps(unhx(it.Name)), len(es), strings.Join(toks, " "), tail)
+	input := fmt.Sprintf("E%s %d %d %s %d %s%s", map[bool]string{false: "", true: "U"}[sc.NonRoot], sc.Umask, b2i(sc.Preserve), nameComps(unhx(it.Name)), len(es), strings.Join(toks, " "), tail)
 	if perr != nil {
-		run.Case(id, input, strings.SplitN(errClass(perr), ":", 2)[0])
+		residue := "RES -"
+		if left, serr := snapshot(filepath.Join(dir, name)); serr == nil {
+			residue = "RES " + listing(left)
+		}
+		run.Count("residue-after-failed-push")
+		run.Case(id, input, strings.SplitN(errClass(perr), ":", 2)[0]+" "+residue)
 		run.Count("foreign=" + strings.SplitN(errClass(perr), ":", 2)[0])
 		run.Nontrivial(input)
 		return
@@ -1726,29 +1886,98 @@ var oracleSide *os.File
 // observations, oracle verdicts and counters into this run.  Not being able to do so is an
 // error of the run (exit != 0), never a silent pass.
 func runChild(replay string) {
-	dir := filepath.Join(run.Dir, "nonroot")
-	tmp := filepath.Join(dir, "tmp")
-	if err := os.MkdirAll(tmp, 0o755); err != nil {
-		panic(err)
+	// The unprivileged run must not depend on where the checkout lives (a run directory under
+	// /root is not traversable for uid 65534): it gets its own world-traversable directory under
+	// the system's temporary directory, a copy of this binary and of its input there.
+	envFail := func(format string, a ...any) {
+		fmt.Fprintf(os.Stderr, "C12 harness: ENVIRONMENT (not oras-go): "+format+"\n", a...)
+		run.Finish()
+		os.Exit(5)
 	}
-	for _, d := range []string{dir, tmp} {
-		if err := os.Chown(d, nonRootUID, nonRootUID); err != nil {
-			panic(err)
+	traversable := func(dir string) bool {
+		for p := dir; ; p = filepath.Dir(p) {
+			fi, err := os.Stat(p)
+			if err != nil || !fi.IsDir() || fi.Mode().Perm()&0o001 == 0 {
+				return false
+			}
+			if p == filepath.Dir(p) {
+				return true
+			}
 		}
 	}
+	base := ""
+	for _, cand := range []string{os.TempDir(), "/tmp", "/var/tmp", "/dev/shm"} {
+		if abs, err := filepath.Abs(cand); err == nil && traversable(abs) {
+			base = abs
+			break
+		}
+	}
+	if base == "" {
+		envFail("no temporary directory that uid %d can reach (tried %s, /tmp, /var/tmp, /dev/shm)", nonRootUID, os.TempDir())
+	}
+	top, err := os.MkdirTemp(base, "c12-nonroot-")
+	if err != nil {
+		envFail("cannot create a directory under %s: %v", base, err)
+	}
+	defer os.RemoveAll(top)
+	dir, tmp := filepath.Join(top, "run"), filepath.Join(top, "tmp")
+	for _, d := range []string{top, dir, tmp} {
+		if err := os.MkdirAll(d, 0o755); err != nil {
+			envFail("%v", err)
+		}
+		if err := os.Chmod(d, 0o755); err != nil {
+			envFail("%v", err)
+		}
+		if err := os.Chown(d, nonRootUID, nonRootUID); err != nil {
+			envFail("cannot give %s to uid %d: %v", d, nonRootUID, err)
+		}
+	}
+	copyTo := func(src, dst string, mode os.FileMode) {
+		data, err := os.ReadFile(src)
+		if err != nil {
+			envFail("%v", err)
+		}
+		if err := os.WriteFile(dst, data, mode); err != nil {
+			envFail("%v", err)
+		}
+		os.Chmod(dst, mode)
+	}
+	self, err := os.Executable()
+	if err != nil {
+		self = os.Args[0]
+	}
+	exe := filepath.Join(top, "hx_c12")
+	copyTo(self, exe, 0o755)
 	args := []string{"-seed", fmt.Sprint(run.Seed), "-tier", run.Tier, "-dir", dir, "-nonroot"}
 	if replay != "" {
-		args = append(args, "-replay", replay)
+		rp := filepath.Join(top, "replay.json")
+		copyTo(replay, rp, 0o644)
+		args = append(args, "-replay", rp)
 	}
-	cmd := exec.Command(os.Args[0], args...)
+	cctx, cancel := context.WithTimeout(context.Background(), time.Duration(run.Scale(10, 60))*time.Minute)
+	defer cancel()
+	cmd := exec.CommandContext(cctx, exe, args...)
 	cmd.Env = append(os.Environ(), "TMPDIR="+tmp, "HOME="+dir)
 	cmd.Dir = dir
 	cmd.SysProcAttr = &syscall.SysProcAttr{Credential: &syscall.Credential{Uid: nonRootUID, Gid: nonRootUID}}
 	out, err := cmd.CombinedOutput()
 	if err != nil {
+		var ee *exec.ExitError
+		if !errors.As(err, &ee) {
+			// the process could not even be started (setuid refused, exec refused ...)
+			envFail("the unprivileged (uid %d) run could not be started: %v\n%s", nonRootUID, err, out)
+		}
 		fmt.Fprintf(os.Stderr, "C12 harness: the unprivileged (uid %d) run failed: %v\n%s\n", nonRootUID, err, out)
 		run.Finish()
 		os.Exit(3)
+	}
+	// keep a copy of what the child wrote next to this run's files
+	keep := filepath.Join(run.Dir, "nonroot")
+	os.MkdirAll(keep, 0o755)
+	for _, n := range []string{"cases.txt", "impl.txt", "oracle.txt", "oracle.jsonl", "stats.json"} {
+		if data, err := os.ReadFile(filepath.Join(dir, n)); err == nil {
+			os.WriteFile(filepath.Join(keep, n), data, 0o644)
+		}
 	}
 	read := func(name string) []string {
 		data, err := os.ReadFile(filepath.Join(dir, name))
@@ -1792,7 +2021,53 @@ func runChild(replay string) {
 		run.Finish()
 		os.Exit(3)
 	}
-	os.RemoveAll(filepath.Join(dir, "w"))
+}
+
+// enumPerms pushes, for every small-scope tree with at most four archive entries, the archive in
+// EVERY order of its entries (quick: every step-th tree): the order-dependent parts of
+// extractTarDirectory (missing parents, links checked against what is already there, the last
+// entry of a directory counting) against the model, exhaustively in a small scope.
+func enumPerms(step int) {
+	targets := []string{".", "a", "b", "b/a", "../t/a", "a/x/y"}
+	f := func(n string) *Node {
+		return &Node{Kind: "f", Name: hx(n), Mode: 0o640, Mtime: baseTime, Mtime2: baseTime, Seed: 5, Len: 3}
+	}
+	l := func(n, t string) *Node {
+		return &Node{Kind: "l", Name: hx(n), Mtime: baseTime, Mtime2: baseTime, Target: hx(t)}
+	}
+	d := func(n string, m uint32, ch ...*Node) *Node {
+		return &Node{Kind: "d", Name: hx(n), Mode: m, Mtime: baseTime, Mtime2: baseTime, Children: ch}
+	}
+	var shapes []*Node
+	for _, t := range targets {
+		shapes = append(shapes, d("", 0o755, f("a"), l("b", t)), d("", 0o750, d("a", 0o500, l("b", t))), d("", 0o755, d("a", 0o2755), l("b", t)),
+			d("", 0o755, l("a", t), l("b", "a")), d("", 0o1777, d("b", 0o555, f("a")), l("a", t)))
+	}
+	shapes = append(shapes, d("", 0o700), d("", 0o755, f("a")), d("", 0o755, d("a", 0o555, d("b", 0o500, f("c")))), d("", 0o755, d("a", 0o700, f("b")), f("b")))
+	n := 0
+	for i, root := range shapes {
+		if i%step != 0 {
+			continue
+		}
+		var es []fent
+		walkEntries(root, "t", &es)
+		if len(es) > 4 {
+			continue
+		}
+		perms := 1
+		for k := 2; k <= len(es); k++ {
+			perms *= k
+		}
+		for k := 0; k < perms; k++ {
+			for _, pres := range []bool{false, true} {
+				sc := &Scenario{Op: "S", Umask: 0o027, Preserve: pres, Via: "memory", ForeignPerm: k + 1,
+					Items: []Item{{Name: hx("t"), Tree: cloneNode(root)}}}
+				runScenario(sc)
+				n++
+			}
+		}
+	}
+	run.Extra["entry_order_permutations"] = n
 }
 
 func main() {
@@ -1849,7 +2124,7 @@ func main() {
 		return
 	}
 	if *nonRootFlag {
-		n := run.Scale(120, 2000)
+		n := run.Scale(100, 2000)
 		for i := 0; i < n; i++ {
 			runScenario(genScenario(run.Rand.Fork(), 1000+i))
 		}
@@ -1860,7 +2135,8 @@ func main() {
 	} else {
 		enumSmall([]bool{run.Seed%2 == 1})
 	}
-	n := run.Scale(600, 12000)
+	enumPerms(run.Scale(3, 1))
+	n := run.Scale(450, 12000)
 	for i := 0; i < n; i++ {
 		sc := genScenario(run.Rand.Fork(), i)
 		runScenario(sc)
@@ -1873,7 +2149,8 @@ func main() {
 		"duplicate-content", "hard-link", "item-added-via-symlink", "item-path-differs-from-name", "tree-links=through",
 		"tree-links=outside", "tree-with-setuid/setgid/sticky", "foreign=OK", "foreign=ERR reject", "unpack-good=OK",
 		"unpack-wrong-checksum=ERR", "unpack-wrong-digest=ERR", "direct-push-compared", "skipunpack-blob", "forceCAS-deduped",
-		"filesize>=1MiB", "name>100", "name-nonascii", "nonroot: copy-in=OK", "nonroot: item=dir"} {
+		"dotdot-name: f", "dotdot-name: d", "dotdot-name: l", "dotdot-name: hard link", "dotdot-target",
+		"filesize>=1MiB", "name>100", "link-target>100", "name-nonascii", "nonroot: copy-in=OK", "nonroot: item=dir"} {
 		if run.Dist[k] == 0 {
 			missing = append(missing, k)
 		}
